@@ -16,13 +16,14 @@ LEVEL_TEXT = ('static analysis: (D1) each function registered in tabio.READERS /
               ' must be -base (readers) / +base (writers) with base taken from a table of which on-disk formats are 1-based (interval list, text,'
               ' GFF, SEG, VCF, Picard) or 0-based (BED, tab); `end` is never shifted; every reader/writer pair of one format is inverse; writers '
               'leave their input frame untouched (also when it carries a strand column); BED readers keep the whole 4th tab-separated field as '
-              'the name (a name may contain a blank); parse_seg maps chromosome ids to names before adding the prefix, splits by sample and '
-              'converts log10 only when asked; (D2) every return of tabio.read is dominated by .sort() of the returned object (or re-enters '
-              'read), and GenomicArray.sort is a stable sort by (chromosome key, start, end), and sorter_chrom orders 1 < 2 < 10 < 22 < X < Y < M'
-              ' < longer contig names identically for the bare, chr, Chr and CHR spellings; (D3) every format name sniff_region_format can return'
-              ' is a READERS key and read_auto rewinds; (D4) every to_csv reached from tabio.write / write_dataframe passes a %.Ng float format '
-              'with N>=6. Does not decide the chromosome order of arbitrary names beyond those classes, regex coverage, or byte-identical '
-              'rewrite.')
+              'the name (a name may contain a blank); export seg writes enumerated chromosome ids only for names that differ from their ordinal '
+              '(C20-D3 rule); parse_seg maps chromosome ids to names before adding the prefix, splits by sample and converts log10 only when '
+              'asked; (D2) tabio.read interpreted for every registered format hands back the table the reader parsed, whole (columns kept also '
+              'with zero rows) and sorted; GenomicArray.sort interpreted on literal shuffled tables orders by (natural chromosome order, start, '
+              'end) with ties in input order and renumbers the rows, and sorter_chrom orders 1 < 2 < 10 < 22 < X < Y < M < longer contig names '
+              'identically for the bare, chr, Chr and CHR spellings; (D3) every format name sniff_region_format can return is a READERS key and '
+              'read_auto rewinds; (D4) every to_csv reached from tabio.write / write_dataframe passes a %.Ng float format with N>=6. Does not '
+              'decide the chromosome order of arbitrary names beyond those classes, regex coverage, or byte-identical rewrite.')
 TECHNIQUE = "abstract interpretation of reader/writer bodies with symbolic coordinates (offset dataflow to the sink column); dominance; registry agreement"
 
 BASE = {"bed": 0, "bed3": 0, "bed4": 0, "tab": 0, "interval": 1, "text": 1, "gff": 1, "seg": 1, "picardhs": 1,
